@@ -186,8 +186,10 @@ func checkFieldAssignment(
 		return nil
 	}
 
+	// Identity, not spelling: look through aliases before and after removing the pointer
+	receiverType = types.Unalias(receiverType)
 	if ptr, ok := receiverType.(*types.Pointer); ok {
-		receiverType = ptr.Elem()
+		receiverType = types.Unalias(ptr.Elem())
 	}
 
 	named, ok := receiverType.(*types.Named)
@@ -240,8 +242,10 @@ func checkIndexAssignment(
 		return nil
 	}
 
+	// Identity, not spelling: look through aliases before and after removing the pointer
+	receiverType = types.Unalias(receiverType)
 	if ptr, ok := receiverType.(*types.Pointer); ok {
-		receiverType = ptr.Elem()
+		receiverType = types.Unalias(ptr.Elem())
 	}
 
 	named, ok := receiverType.(*types.Named)
@@ -316,8 +320,10 @@ func checkFieldIncDec(
 		return nil
 	}
 
+	// Identity, not spelling: look through aliases before and after removing the pointer
+	receiverType = types.Unalias(receiverType)
 	if ptr, ok := receiverType.(*types.Pointer); ok {
-		receiverType = ptr.Elem()
+		receiverType = types.Unalias(ptr.Elem())
 	}
 
 	named, ok := receiverType.(*types.Named)
@@ -437,8 +443,10 @@ func checkCompoundLHS(
 		return nil
 	}
 
+	// Identity, not spelling: look through aliases before and after removing the pointer
+	receiverType = types.Unalias(receiverType)
 	if ptr, ok := receiverType.(*types.Pointer); ok {
-		receiverType = ptr.Elem()
+		receiverType = types.Unalias(ptr.Elem())
 	}
 
 	named, ok := receiverType.(*types.Named)
